@@ -1286,6 +1286,20 @@ impl Hist {
 		if self.p.coin() {
 			self.relabelled_invoice_to_payer(f);
 		}
+		// a paid invoice carrying the payer's cutoff, one time in two: never broadcast; the chain passes
+		// the cutoff and both sides look again (each side's entry is due)
+		let cutoff = self.flights[f].s2.as_ref().map(|s| s.ttl_cutoff_height).unwrap_or(0);
+		if cutoff != 0 && self.p.coin() {
+			let miner = self.p.below(2) as usize;
+			for n in 0..5 {
+				self.mine(miner, n == 0);
+			}
+			self.update_state(issuer);
+			if payer != issuer {
+				self.update_state(payer);
+			}
+			return;
+		}
 		self.post(f);
 		let miner = self.p.below(2) as usize;
 		self.mine(miner, true);
